@@ -353,6 +353,9 @@ func nativeReplay(vd, repo string, hs HarnessSpec, vecPath string) (string, stri
 		if !strings.HasSuffix(n, ".go") || n == "zz_verif_rt.go" || strings.HasPrefix(n, "zz_verif_gen_") {
 			continue
 		}
+		if _, gone := droppedHarness[n]; gone {
+			continue
+		}
 		repl[filepath.Join(repo, hs.Pkg, n)] = filepath.Join(hdir, n)
 	}
 	// the package's own test files are replaced by empty stubs: their init functions (e.g. diam/sm's
